@@ -189,7 +189,17 @@ func Check(p *Prop, tier string, workerExe string) int {
 				outs[w][len(outs[w])-1].crash = &Failure{Signature: p.ID + "/fatal/" + cls, Detail: "worker process died while executing this trace: " + firstLine(o.err),
 					Seed: seed, RunIndex: pr.Idx, Trace: t, OrigOps: len(t.Ops), MinOps: len(t.Ops), Count: 1}
 				outs[w][len(outs[w])-1].err = ""
-				deaths++
+				// deaths that belong to a known finding do not count: they are expected
+				// on the unchanged tree and must not shorten the tier
+				knownDeath := false
+				for _, kpat := range knownPatterns {
+					if re, err := regexp.Compile("^(?:" + kpat + ")$"); err == nil && re.MatchString(p.ID+"/fatal/"+cls) {
+						knownDeath = true
+					}
+				}
+				if !knownDeath {
+					deaths++
+				}
 				// resume: the same run after the sub-run that killed the worker, or
 				// the next run when the death was not inside an announced sub-run
 				if pr.Fault != nil && pr.Sub > 0 {
